@@ -255,4 +255,26 @@ KeyOnlyFromCanonical ==
   \A i \in Inst : aux[i].nkey > 0 =>
      LET g == st[i].ps.grp  body == Tail(aux[i].inb)
      IN Len(body) = GESize(g) /\ GDec(g, body).ok /\ GEnc(g, GDec(g, body).e) = body
+
+(* ---------------------------------------------------------------------- *)
+(* refinement: every step of this machine is a step of the value-free     *)
+(* Lifecycle machine, whose counting properties (C07, C11) are proved      *)
+(* inductively for histories of any length (Lifecycle.tla, Apalache).      *)
+(* ---------------------------------------------------------------------- *)
+LIds == 1..MaxInst
+LC == INSTANCE Lifecycle WITH
+        NIds     <- MaxInst,
+        alive    <- [i \in LIds |-> i <= Len(st)],
+        started  <- [i \in LIds |-> i <= Len(st) /\ st[i].started],
+        finished <- [i \in LIds |-> i <= Len(st) /\ st[i].finished],
+        gaveMsg  <- [i \in LIds |-> i <= Len(st) /\ st[i].gaveMsg],
+        gaveKey  <- [i \in LIds |-> i <= Len(st) /\ st[i].gaveKey],
+        restored <- [i \in LIds |-> i <= Len(st) /\ st[i].restored],
+        nmsg     <- [i \in LIds |-> IF i <= Len(st) THEN aux[i].nmsg ELSE 0],
+        nkey     <- [i \in LIds |-> IF i <= Len(st) THEN aux[i].nkey ELSE 0],
+        entropy  <- [i \in LIds |-> IF i <= Len(st) THEN aux[i].entropy ELSE 0],
+        origin   <- [i \in LIds |-> IF i <= Len(st) THEN aux[i].origin ELSE 0],
+        saved    <- {d.by : d \in disk}
+RefinesLifecycle == LC!StepOK
+LifecycleInv == LC!IndInv
 =============================================================================
